@@ -211,10 +211,38 @@ def _case_h2(rng, tier, n, h2c=False):
             "sched": {"seed": rng.randrange(1 << 30), "net_jitter": rng.choice([None, None, [0.3, 3]])}}
 
 
+def _case_h2_client_goaway(rng, tier, n):
+    """A client shutting down gracefully: GOAWAY(NO_ERROR) - it will open no further streams - while a response is still in flight
+    (stalled on the client's flow-control window), then it goes on reading: the response it asked for is still owed to it in full."""
+    fb = FrameBuilder()
+    iw = rng.choice([1, 100, 1000])
+    rspec = {"kind": "h2", "credit": "none", "initial_window": iw}
+    tag = n * 10
+    req = G.gen_request(rng, tag, "2", tier, body_sizes=[0], methods=["GET"])
+    req["sid"] = 1
+    resp = gen_resp(rng, tag, tier, True, "GET")
+    if resp["total"] <= iw:
+        resp["sizes"] = list(resp["sizes"]) + [iw + 500]
+        resp["total"] = sum(resp["sizes"])
+        resp["headers"] = [h for h in resp["headers"] if h[0] != b"content-length"]
+        resp["cl"] = False
+    blob = client_preface(fb, rspec) + G.serialize_h2(fb, req, 1)
+    need = resp["total"] + 10
+    client = [["feed", blob], ["settle"], ["feed", fb.goaway(last=0, code=0)]] + ([["settle"]] if rng.random() < 0.5 else []) + \
+             [["react", "window_update", 0, need], ["react", "settings", {"4": min((1 << 31) - 1, iw + need)}], ["settle"]]
+    return {"family": "h2.client-goaway-response-in-flight", "backends": ["asyncio", "trio"], "config": {"keep_alive_timeout": 5},
+            "conn": {"tls": False, "alpn": None}, "apps": {"default": [["recv_until_end"], ["respond", 200, [], b"d"]], "by_tag": {str(tag): resp_script(resp, None)}},
+            "client": client, "reactor": rspec,
+            "truth": {"requests": [req], "responses": [resp], "proto": "h2", "cut": False, "client_goaway": True},
+            "sched": {"seed": rng.randrange(1 << 30)}}
+
+
 def _gen(rng, tier):
     for i in range(N_CASES[tier]):
         r = rng.random()
-        if r < 0.45:
+        if i % 100 == 7:
+            yield _case_h2_client_goaway(rng, tier, i)
+        elif r < 0.45:
             yield _case_h1(rng, tier, i)
         elif r < 0.93:
             yield _case_h2(rng, tier, i)
@@ -495,6 +523,15 @@ def check(case, obs, tally):
         sid = req["sid"]
         tag = resp["tag"]
         s = rx.streams.get(sid)
+        if truth.get("client_goaway"):
+            tally.clause("h2.end")
+            exp = b"" if resp["suppressed"] else pattern(("resp", tag), 0, resp["total"])
+            if s is None or s.status is None or bytes(s.data) != exp or s.ended != 1:
+                out.append({"clause": "h2.end", "sig": "C02.h2/response-cut/client-goaway-in-flight",
+                            "detail": "tag %d: the client sent GOAWAY(NO_ERROR) with the response stalled on its window and then opened the window: "
+                                      "%d of %d body bytes, END_STREAM x%d, connection closed at %r" % (
+                                          tag, len(s.data) if s else 0, len(exp), s.ended if s else 0, obs.closed_at)})
+                continue
         if s is None or s.status is None:
             out.append({"clause": "h2.headers", "sig": "C02.h2/no-response",
                         "detail": "tag %d stream %d: no response head received" % (tag, sid)})
